@@ -42,6 +42,11 @@ claim("C17", "proof",
   "Trusted base: go/parser, go/types, go/constant; ~80 lines of transfer functions for & | ^ &^ << >> and integer conversion in /verif/checker/bp.go.",
   "static analysis: bit-provenance abstract interpretation over go/ast + go/types", "DESIGN.md §4 BP, §5 C17")
 
+claim("C18", "other",
+  "'Rejected with an error' decided for every unsupported page type, value encoding, level encoding (where the column decodes such levels) and codec, at every page of every chunk: must-check-before-use over all CFG paths of each page-header consumer (with helper summaries and correlated boolean fields), error default of the codec dispatch, and propagation of the refusal to the constructor / sticky Error(). 'Does not panic' for otherwise malformed content is NOT decided.",
+  "Header fields are what thrift decoded; selectors and supported constants come from the schema package by name (PageHeader.Type, DataPageHeader.{Encoding,DefinitionLevelEncoding,RepetitionLevelEncoding}, CompressionCodec).",
+  "static analysis: path-sensitive must-check-before-use exploration on go/ssa CFGs (FG rule) + error-propagation check (EP)", "DESIGN.md §4 FG, §5 C18")
+
 NA_DEFAULT = "check not built yet (static-analysis framework under construction, see DESIGN.md §9)"
 NA = {}
 checks = []
